@@ -29,9 +29,10 @@ func TestMain(m *testing.M) {
 // C11 — Claims hand out disjoint, matching, oldest-first records.
 
 type C11Rec struct {
-	Exp int  `json:"exp"` // seconds relative to case start: <0 expired, >0 future, 0 never expires
-	Cre int  `json:"cre"` // seconds relative to case start (always in the past)
-	B   Body `json:"b"`
+	Exp int    `json:"exp"` // seconds relative to case start: <0 expired, >0 future, 0 never expires
+	Cre int    `json:"cre"` // seconds relative to case start (always in the past)
+	B   Body   `json:"b"`
+	Alt string `json:"alt,omitempty"` // C12 only: "int" | "str" | "raw" — the record's value is not a msgpack map
 }
 
 type C11Claimer struct {
